@@ -67,6 +67,13 @@ class WritePlan:
 
 def _oserror(errname, path):
     code = ERRNOS[errname]
+    if errname == "EPIPE" and os.environ.get("IODATA_VERIF_SIM"):
+        # inside a simulated `python -m iodata` process: the kernel delivers SIGPIPE before write(2) returns EPIPE; a
+        # process that restored the default disposition dies here, silently, with status -13
+        import signal
+
+        if signal.getsignal(signal.SIGPIPE) == signal.SIG_DFL:
+            os.kill(os.getpid(), signal.SIGPIPE)
     return OSError(code, os.strerror(code), path)
 
 
@@ -960,4 +967,70 @@ class MemPoison:
 
         if self.variant is not None:
             numpy.empty, numpy.empty_like = self._real
+        return False
+
+
+# ---------------------------------------------------------------------------------------------
+# clock seam
+
+
+class SimClock:
+    """The wall clock of a run.  time.time / time_ns / localtime / gmtime / ctime / strftime (without explicit time) and
+    datetime.date.today / datetime.datetime.now / utcnow / today (through module attributes of `datetime`) report the
+    simulated instant.  `datetime.date.today()` of the real C type follows as well, because it asks time.time(); a
+    `datetime.datetime.now()` bound with `from datetime import datetime` before the seam was installed does not
+    (documented limit)."""
+
+    def __init__(self, epoch):
+        self.epoch = epoch
+
+    def __enter__(self):
+        import datetime
+        import time
+
+        if self.epoch is None:
+            return self
+        ep = float(self.epoch)
+        self._real = {n: getattr(time, n) for n in ("time", "time_ns", "localtime", "gmtime", "ctime", "strftime", "asctime")}
+        real = self._real
+        self._dt = (datetime.date, datetime.datetime)
+        real_date, real_datetime = self._dt
+
+        time.time = lambda: ep
+        time.time_ns = lambda: int(ep * 1e9)
+        time.localtime = lambda secs=None: real["localtime"](ep if secs is None else secs)
+        time.gmtime = lambda secs=None: real["gmtime"](ep if secs is None else secs)
+        time.ctime = lambda secs=None: real["ctime"](ep if secs is None else secs)
+        time.asctime = lambda t=None: real["asctime"](real["localtime"](ep) if t is None else t)
+        time.strftime = lambda fmt, t=None: real["strftime"](fmt, real["localtime"](ep) if t is None else t)
+
+        class SimDate(real_date):
+            @classmethod
+            def today(cls):
+                return cls.fromtimestamp(ep)
+
+        class SimDateTime(real_datetime):
+            @classmethod
+            def now(cls, tz=None):
+                return cls.fromtimestamp(ep, tz)
+
+            @classmethod
+            def today(cls):
+                return cls.fromtimestamp(ep)
+
+            @classmethod
+            def utcnow(cls):
+                return cls.fromtimestamp(ep, datetime.timezone.utc).replace(tzinfo=None)
+
+        datetime.date, datetime.datetime = SimDate, SimDateTime
+        return self
+
+    def __exit__(self, *exc):
+        import datetime
+        import time
+
+        if self.epoch is not None:
+            for n, f in self._real.items():
+                setattr(time, n, f)
+            datetime.date, datetime.datetime = self._dt
         return False
